@@ -1115,6 +1115,8 @@ class Generator:
     def __init__(self, repo, template_path, canary=False, lenient=False):
         self.lenient = lenient      # skip proof aids whose loop / anchor no longer exists (recorded in lost_aids)
         self.lost_aids = []
+        self.trait_cover = {}       # (file, 'impl T for X') -> names of the fns extracted from that trait impl
+        self.trait_cover_ok = {}    # fns of a trait impl deliberately left out (//@uncovered)
         self.canary = canary
         self.canaries = []       # (canary id, item id, where)
         self.repo = repo
@@ -1240,6 +1242,10 @@ class Generator:
                     j += 1
                 self.fragment(kv, hdr)
                 i = j + 1
+            elif s.startswith("//@uncovered "):
+                kv = parse_kv(s[len("//@uncovered "):])
+                self.trait_cover_ok.setdefault((kv["file"], kv["path"]), set()).update(x.strip() for x in kv["fns"].split(","))
+                i += 1
             elif s.startswith("//@expect "):
                 # N27: the template transcribes a declaration that lives inside a macro invocation; the transcription is
                 # only valid while the source still contains exactly this token sequence (once)
@@ -1256,6 +1262,21 @@ class Generator:
             else:
                 self.emit(ln, {"k": "tmpl"})
                 i += 1
+
+    def check_trait_impl_coverage(self):
+        """A trait impl from which methods are under contract must have ALL its methods under contract: a method that
+        is added to such an impl overrides a provided default of the trait (e.g. `is_human_readable`, `collect_str`)
+        and changes behaviour without touching any function the contracts mention."""
+        for (file, impl_part), names in self.trait_cover.items():
+            _, toks = self.src(file)
+            loc = locate(toks, impl_part)
+            k, ob, end = loc["impl"]
+            ci = loc["ci"]
+            have = {it[1] for it in _items_in(toks, ci, ob + 1, end) if it[0] == "fn"}
+            missing = have - names - self.trait_cover_ok.get((file, impl_part), set())
+            if missing:
+                raise ExtractError(f"{file}: `{impl_part}` has method(s) not under contract: {', '.join(sorted(missing))} "
+                                   f"(every method of a trait impl under contract must be; a new one overrides a trait default)")
 
     def emit_impl_header(self, kv):
         file = kv["file"]
@@ -1282,7 +1303,15 @@ class Generator:
         file, path, iid = kv["file"], kv["path"], kv["id"]
         tags = tuple(kv.get("tags", "").split(",")) if kv.get("tags") else ()
         src_text, toks = self.src(file)
-        loc = locate(toks, path)
+        try:
+            loc = locate(toks, path)
+        except ExtractError as e:
+            if kv.get("optional") and "item not found" in str(e):
+                return      # `optional=1`: a contract for an item the source may or may not define (e.g. a trait method with a default)
+            raise
+        parts = [x.strip() for x in path.split("/")]
+        if len(parts) == 2 and parts[0].startswith("impl ") and " for " in parts[0] and parts[1].startswith("fn "):
+            self.trait_cover.setdefault((file, parts[0]), set()).add(parts[1][3:].strip())
         ci = loc["ci"]
         a, b = ci[loc["start"]], ci[loc["end"] - 1] + 1
         item_src = src_text[toks[a].pos: toks[b - 1].pos + len(toks[b - 1].text)]
@@ -1740,6 +1769,7 @@ def _cancel_tags(block, default):
 def generate(repo, template, out_rs, out_map, canary=False, lenient=False):
     g = Generator(repo, template, canary=canary, lenient=lenient)
     g.run()
+    g.check_trait_impl_coverage()
     text, linemap = g.result()
     os.makedirs(os.path.dirname(out_rs), exist_ok=True)
     open(out_rs, "w").write(text)
